@@ -15,7 +15,9 @@
 //              ->  M depth,namehex,enabledByHex|-,dependsHex|-,defaultDependsHex|-;…
 //   perm <seed> <max> : load every permutation of the file's messages (all if <= 6
 //              messages, else <max> pseudo-random ones)
-//              ->  N <msgs> P <perms> R <rc> F <fields> SAME <1|0> [W <perm> R <rc> F <fields>]
+//              ->  N <msgs> P <perms> R <rc> F <fields> A <1|0> SAME <1|0> [W <perm> R <rc> F <fields>]
+//              A: every load that succeeded (the file as written and each permutation tried) handed each of the
+//              file's messages to the dispatcher exactly once (savefile_dispatcher_t::on_dispatch is counted)
 // The descriptor token is for the model and the oracle only.
 // Canonical forms: fields `addr=value` sorted, of enabled sub-trees only; lines
 // `addr:value` / `addr:[v;v;…]` sorted, obtained by scanning the file text with the
@@ -230,9 +232,20 @@ static size_t header_len(const std::string &text) {
     return b == std::string::npos ? text.size() : b + 1;
 }
 
-static std::string load_into_fresh(int appid, const std::string &text, int &rc) {
+// counts the messages load_from_file hands to the dispatcher (one on_dispatch per message of the file)
+struct CountingDispatcher : rtosc::savefile_dispatcher_t {
+    size_t applied = 0;
+    int on_dispatch(size_t, char *, size_t, size_t nargs, rtosc_arg_val_t *) override { ++applied; return (int)nargs; }
+};
+
+static std::string load_into_fresh(int appid, const std::string &text, int &rc, size_t *applied = nullptr) {
     std::unique_ptr<VApp> b(make_app(appid));
-    rc = rtosc::load_from_file(text.c_str(), b->ports(), b->obj(), b->name(), APPVER);
+    if(applied) {
+        CountingDispatcher cd;
+        rc = rtosc::load_from_file(text.c_str(), b->ports(), b->obj(), b->name(), APPVER, &cd);
+        *applied = cd.applied;
+    } else
+        rc = rtosc::load_from_file(text.c_str(), b->ports(), b->obj(), b->name(), APPVER);
     return rc < 0 ? std::string("-") : fields(*b);
 }
 
@@ -355,7 +368,9 @@ static std::string step(const std::string &line) {
         size_t maxr = (size_t)atol(w[5].c_str());
         size_t n = sc.chunks.size();
         int rc0;
-        std::string F0 = load_into_fresh(appid, text, rc0);
+        size_t applied0 = 0;
+        std::string F0 = load_into_fresh(appid, text, rc0, &applied0);
+        bool all_applied = rc0 < 0 || applied0 == n;
         std::vector<size_t> idx(n);
         for(size_t i = 0; i < n; ++i) idx[i] = i;
         size_t count = 0;
@@ -364,8 +379,10 @@ static std::string step(const std::string &line) {
             std::string t = header;
             for(size_t i = 0; i < n; ++i) { if(i) t += "\n"; t += sc.chunks[p[i]]; }
             int rc;
-            std::string F = load_into_fresh(appid, t, rc);
+            size_t applied = 0;
+            std::string F = load_into_fresh(appid, t, rc, &applied);
             ++count;
+            if(rc >= 0 && applied != n) all_applied = false;
             if(rc != rc0 || F != F0) {
                 std::vector<std::string> ps;
                 for(size_t x : p) ps.push_back(std::to_string(x));
@@ -386,7 +403,7 @@ static std::string step(const std::string &line) {
             }
         }
         return "N " + std::to_string(n) + " P " + std::to_string(count) + " R " + rc_str(rc0) + " F " + F0
-               + " SAME " + (same ? "1" : "0") + wit;
+               + " A " + (all_applied ? "1" : "0") + " SAME " + (same ? "1" : "0") + wit;
     }
     return "bad-op";
 }
